@@ -126,6 +126,11 @@ Proof.
   unfold update_conclusion. destruct c; [reflexivity|]. destruct (Nat.eqb id (rootsel S)); [|reflexivity].
   destruct (seenb _ _ _ _ _); reflexivity.
 Qed.
+Lemma uc_seen_incl0 id i c S : incl (seen S) (seen (update_conclusion id i c S)).
+Proof.
+  unfold update_conclusion. destruct c; [apply incl_refl|]. destruct (Nat.eqb id (rootsel S)); [|apply incl_refl].
+  destruct (seenb _ _ _ _ _); [apply incl_refl|]. simpl. apply incl_tl, incl_refl.
+Qed.
 Lemma uc_field id i c S f n : f <> DYN -> get f n (update_conclusion id i c S) = get f n S.
 Proof.
   intros H1. unfold update_conclusion. destruct c; [reflexivity|]. destruct (Nat.eqb id (rootsel S)).
@@ -190,12 +195,13 @@ Definition inT (t : tree) : nat -> Prop := fun n => In n (ids t).
 
 (* the store handed to the continuation *)
 Definition Rel (t : tree) (i : nat) (e : elem) (S S1 : store) : Prop :=
-  (out S1 = out S /\
+  ((out S1 = out S /\
   (forall f n, ~ In n (ids t) -> get f n S1 = get f n S) /\
   grow (inT t) i S S1 /\
   getb FLAG (root_id t) S1 = fst (pe t e) /\
   concl_now t S1 = snd (pe t e)) /\
-  rootsel S1 = rootsel S.
+  rootsel S1 = rootsel S) /\
+  incl (seen S) (seen S1).
 (* the final store, relative to the store the continuation returned *)
 Definition Fin (t : tree) (S' Sf : store) : Prop :=
   (out Sf = out S' /\
@@ -238,7 +244,7 @@ Section Bound.
     induction t as [id cs c | id s l IHl r IHr]; intros Hnf Hnd i e k S Hfr Hdc Hk.
     - (* leaf *)
       exists (setb FLAG id (negb (holds e cs)) S). split.
-      + split; [|reflexivity]. repeat split.
+      + split; [split; [|reflexivity]|apply incl_refl]. repeat split.
         * intros f n Hn. apply get_setb_diff. right. intro; subst; apply Hn; simpl; auto.
         * apply grow_eq. reflexivity.
         * simpl. apply getb_setb_same.
@@ -293,13 +299,13 @@ Section Bound.
             + rewrite get_set_diff by auto. exact H3.
             + rewrite (yield_upd_other (inT l) id _ _ k _ f0 n0 HklK Hp0 H).
               rewrite get_set_diff by auto. exact H3. }
-        destruct (IHl Hnl Hndl i e KK S Hfrl Hdcl HKK) as [S1l [[[Ho1 [Hout1 [Hseen1 [Hfl1 Hcl1]]]] Hrs1] Hfinl]].
+        destruct (IHl Hnl Hndl i e KK S Hfrl Hdcl HKK) as [S1l [[[[Ho1 [Hout1 [Hseen1 [Hfl1 Hcl1]]]] Hrs1] Hin1] Hfinl]].
         destruct (pe l e) as [fl cl] eqn:Epl. simpl in Hfl1, Hcl1, Hfinl.
         destruct fl.
         * (* left false: passed through *)
           assert (Epe : pe (Node id SExc l r) e = (true, [])) by (simpl; rewrite Epl; reflexivity).
           exists (setb FLAG id true S1l). unfold Rel, Fin. rewrite Epe. simpl fst. simpl snd. split.
-          -- split; [|exact Hrs1]. repeat split.
+          -- split; [split; [|exact Hrs1]|exact Hin1]. repeat split.
              ++ exact Ho1.
              ++ intros f n Hn. rewrite get_setb_diff by (right; intro; subst; apply Hn; simpl; auto).
                 apply Hout1. intro; apply Hn; simpl; right; apply in_or_app; auto.
@@ -343,7 +349,7 @@ Section Bound.
             assert (Hne : id <> n1) by (intro; subst; contradiction).
             rewrite (yield_upd_other (inT r) id _ _ k _ f1 n1 HkrK Hp1 Hne).
             apply get_setb_diff; auto. }
-          destruct (IHr Hnr Hndr i e K' S2 Hfrr Hdcr HK') as [S1r [[[Ho2 [Hout2 [Hseen2 [Hfl2 Hcl2]]]] Hrs2] Hfinr]].
+          destruct (IHr Hnr Hndr i e K' S2 Hfrr Hdcr HK') as [S1r [[[[Ho2 [Hout2 [Hseen2 [Hfl2 Hcl2]]]] Hrs2] Hin2] Hfinr]].
           destruct (pe r e) as [fr cr] eqn:Epr. simpl in Hfl2, Hcl2, Hfinr.
           destruct Hfinl as [[Hf1 [Hf2 [Hf3 Hf4]]] Hf5].
           assert (Hrootl : forall f n, In n (ids l) -> get f n S1r = get f n S1l).
@@ -383,7 +389,7 @@ Section Bound.
              { unfold getb, U. rewrite uc_field by fne. exact HS4flag. }
              unfold yield_upd in Hf1, Hf2, Hf3, Hf4, Hf5. cbn [fst] in Hf1, Hf2, Hf3, Hf4, Hf5. fold U in Hf1, Hf2, Hf3, Hf4, Hf5. rewrite HUflag in Hf1, Hf2, Hf3, Hf5.
              exists U. unfold Rel, Fin. rewrite Epe. simpl fst. simpl snd. split.
-             ++ split; [|unfold U; rewrite uc_rootsel; unfold S4; cbn [rootsel set setb]; rewrite Hg5; unfold K'; cbv beta iota; rewrite Hrs2; unfold S2; cbn [rootsel set setb]; exact Hrs1]. repeat split.
+             ++ split; [split; [|unfold U; rewrite uc_rootsel; unfold S4; cbn [rootsel set setb]; rewrite Hg5; unfold K'; cbv beta iota; rewrite Hrs2; unfold S2; cbn [rootsel set setb]; exact Hrs1]|eapply incl_tran; [exact Hin1|]; eapply incl_tran; [exact Hin2|]; unfold U; eapply incl_tran; [|apply uc_seen_incl0]; unfold S4; cbn [seen set]; rewrite Hg3; apply incl_refl]. repeat split.
                 ** unfold U. rewrite uc_out. unfold S4. rewrite out_set. rewrite Hg1, Ho2. unfold S2, setb.
                    rewrite !out_set. exact Ho1.
                 ** intros f n Hn.
@@ -437,7 +443,7 @@ Section Bound.
                unfold U. rewrite uc_field by fne. unfold S1r', setb. rewrite get_set_same. reflexivity. }
              rewrite Hry in Hf1, Hf2, Hf3, Hf5.
              exists U. unfold Rel, Fin. rewrite Epe. simpl fst. simpl snd. split.
-             ++ split; [|unfold U; rewrite uc_rootsel; unfold S1r'; cbn [rootsel set setb]; rewrite Hrs2; unfold S2; cbn [rootsel set setb]; exact Hrs1]. repeat split.
+             ++ split; [split; [|unfold U; rewrite uc_rootsel; unfold S1r'; cbn [rootsel set setb]; rewrite Hrs2; unfold S2; cbn [rootsel set setb]; exact Hrs1]|eapply incl_tran; [exact Hin1|]; eapply incl_tran; [exact Hin2|]; unfold U; eapply incl_tran; [|apply uc_seen_incl0]; apply incl_refl]. repeat split.
                 ** unfold U. rewrite uc_out. unfold S1r', setb. rewrite out_set. rewrite Ho2. unfold S2, setb.
                    rewrite !out_set. exact Ho1.
                 ** intros f n Hn.
@@ -482,7 +488,7 @@ Section Bound.
               rewrite !get_setb_diff by auto. reflexivity.
           - rewrite (sel_post_other (inT l) SAlt id l r k _ _ f0 n0 HklK Hp0 Hne).
             rewrite !get_setb_diff by auto. reflexivity. }
-        destruct (IHl Hnl Hndl i e KK S Hfrl Hdcl HKK) as [S1l [[[Ho1 [Hout1 [Hseen1 [Hfl1 Hcl1]]]] Hrs1] Hfinl]].
+        destruct (IHl Hnl Hndl i e KK S Hfrl Hdcl HKK) as [S1l [[[[Ho1 [Hout1 [Hseen1 [Hfl1 Hcl1]]]] Hrs1] Hin1] Hfinl]].
         destruct (pe l e) as [fl cl] eqn:Epl. simpl in Hfl1, Hcl1, Hfinl.
         assert (Hrl : root_id l <> id) by (intro E; apply Hidl; rewrite <- E; apply root_in).
         assert (Hrr : root_id r <> id) by (intro E; apply Hidr; rewrite <- E; apply root_in).
@@ -510,7 +516,7 @@ Section Bound.
             assert (Hne : id <> n1) by (intro; subst; contradiction).
             rewrite (sel_post_other (inT r) SAlt id l r k _ _ f1 n1 HkrK Hp1 Hne).
             rewrite !get_setb_diff by auto. reflexivity. }
-          destruct (IHr Hnr Hndr i e K' S2 Hfrr Hdcr HK') as [S1r [[[Ho2 [Hout2 [Hseen2 [Hfl2 Hcl2]]]] Hrs2] Hfinr]].
+          destruct (IHr Hnr Hndr i e K' S2 Hfrr Hdcr HK') as [S1r [[[[Ho2 [Hout2 [Hseen2 [Hfl2 Hcl2]]]] Hrs2] Hin2] Hfinr]].
           destruct (pe r e) as [fr cr] eqn:Epr. simpl in Hfl2, Hcl2, Hfinr.
           assert (Hidr1 : forall f, get f id S1r = get f id S2) by (intros f; apply Hout2; assumption).
           unfold K' in Hfinr at 1. cbv beta in Hfinr.
@@ -538,7 +544,7 @@ Section Bound.
              cbn [negb] in Hfinr. cbv iota in Hfinr. rewrite HScflag in Hfinr.
              destruct Hfinr as [[Hg1 [Hg2 [Hg3 Hg4]]] Hg5].
              exists Sc. unfold Rel, Fin. rewrite Epe. simpl fst. simpl snd. split.
-             ++ split; [|unfold Sc; cbn [rootsel set setb]; rewrite Hrs2; unfold S2; cbn [rootsel set setb]; exact Hrs1]. repeat split.
+             ++ split; [split; [|unfold Sc; cbn [rootsel set setb]; rewrite Hrs2; unfold S2; cbn [rootsel set setb]; exact Hrs1]|eapply incl_tran; [exact Hin1|]; exact Hin2]. repeat split.
                 ** unfold Sc, setb. rewrite !out_set. rewrite Ho2. unfold S2, setb. rewrite !out_set. exact Ho1.
                 ** intros f n Hn.
                    assert (Hn1 : n <> id) by (intro; subst; apply Hn; simpl; auto).
@@ -577,7 +583,7 @@ Section Bound.
              rewrite HUflag in Hfinr.
              destruct Hfinr as [[Hg1 [Hg2 [Hg3 Hg4]]] Hg5].
              exists U. unfold Rel, Fin. rewrite Epe. simpl fst. simpl snd. split.
-             ++ split; [|unfold U; rewrite uc_rootsel; unfold Sc; cbn [rootsel set setb]; rewrite Hrs2; unfold S2; cbn [rootsel set setb]; exact Hrs1]. repeat split.
+             ++ split; [split; [|unfold U; rewrite uc_rootsel; unfold Sc; cbn [rootsel set setb]; rewrite Hrs2; unfold S2; cbn [rootsel set setb]; exact Hrs1]|eapply incl_tran; [exact Hin1|]; eapply incl_tran; [exact Hin2|]; unfold U; eapply incl_tran; [|apply uc_seen_incl0]; apply incl_refl]. repeat split.
                 ** unfold U. rewrite uc_out. unfold Sc, setb. rewrite !out_set. rewrite Ho2. unfold S2, setb.
                    rewrite !out_set. exact Ho1.
                 ** intros f n Hn.
@@ -630,7 +636,7 @@ Section Bound.
           { unfold getb, U. rewrite uc_field by fne. exact HSaflag. }
           rewrite HUflag in Hf1, Hf2, Hf3, Hf5.
           exists U. unfold Rel, Fin. rewrite Epe. simpl fst. simpl snd. split.
-          -- split; [|unfold U; rewrite uc_rootsel; unfold Sa; cbn [rootsel set setb]; exact Hrs1]. repeat split.
+          -- split; [split; [|unfold U; rewrite uc_rootsel; unfold Sa; cbn [rootsel set setb]; exact Hrs1]|eapply incl_tran; [exact Hin1|]; unfold U; eapply incl_tran; [|apply uc_seen_incl0]; apply incl_refl]. repeat split.
              ++ unfold U. rewrite uc_out. unfold Sa, setb. rewrite !out_set. exact Ho1.
              ++ intros f n Hn.
                 assert (Hn1 : n <> id) by (intro; subst; apply Hn; simpl; auto).
@@ -692,7 +698,7 @@ Section Run.
     assert (Hfr : fresh t j S).
     { intros e0 He0 Hn Hx. specialize (Hlt e0 He0 Hn). lia. }
     destruct (ev_bound W t Hnf Hnd j e (topk t) S Hfr Hdc (topk_keeps t _))
-      as [S1 [[[Ho [Hout [Hseen [Hfl Hcl]]]] _] [[Hf1 [Hf2 [Hf3 Hf4]]] _]]].
+      as [S1 [[[[Ho [Hout [Hseen [Hfl Hcl]]]] _] _] [[Hf1 [Hf2 [Hf3 Hf4]]] _]]].
     rewrite IH.
     - simpl flat_map. rewrite rev_app_distr, <- app_assoc. f_equal.
       unfold binding in *. rewrite Hf1. unfold topk, rows1. simpl snd. simpl fst.
